@@ -24,6 +24,7 @@ type genLayout struct {
 	timeURI    bool   // SegmentTimeline + $Time$ for video
 	audioCodec string // "aac" (1024) | "ac3" (1536) | ""
 	audioSegs  []int  // frames per audio segment
+	audioT     int    // audio timescale = sampling rate (0 = 48000)
 	stpp       bool   // stpp text track at timescale 1000 following the video grid (needs ms-integral video durations)
 	thumbs     bool   // thumbnail track (needs uniform video durations)
 	textShort  int    // number of trailing video segments without a text segment (an asset that must be left out)
@@ -36,6 +37,8 @@ var genLayouts = []genLayout{
 	{name: "gen_irreg", videoT: 1000, frameDur: 100, videoSegs: []int{1000, 2500, 1500, 3000, 2000}, audioCodec: "ac3", audioSegs: []int{63, 63, 62, 63, 63}, stpp: true},
 	{name: "gen_12s", videoT: 25, frameDur: 1, videoSegs: []int{300, 300}, audioCodec: "aac", audioSegs: []int{563, 562}},
 	{name: "gen_one", videoT: 48000, frameDur: 1920, videoSegs: []int{192000}, audioCodec: "aac", audioSegs: []int{187}, thumbs: true},
+	// 29.97 fps video with 44.1 kHz audio: segment starts that are no whole number of audio ticks
+	{name: "gen_ntsc441", videoT: 90000, frameDur: 3003, videoSegs: []int{180180, 180180, 180180, 180180}, audioCodec: "aac", audioSegs: []int{87, 86, 86, 86}, audioT: 44100},
 	{name: "gen_short", videoT: 15360, frameDur: 512, videoSegs: []int{15360, 15360, 15360}, audioCodec: "aac", audioSegs: []int{47, 47, 46}, stpp: true},
 }
 
@@ -178,7 +181,11 @@ func genAsset(root string, L genLayout) error {
 		if L.audioCodec == "ac3" {
 			initRel, frame, codec = "bbb_hevc_ac3_8s/audio_init.mp4", 1536, "ac-3"
 		}
-		aInit, aTrack, err := retimedInit(initRel, 48000)
+		audioT := L.audioT
+		if audioT == 0 {
+			audioT = 48000
+		}
+		aInit, aTrack, err := retimedInit(initRel, audioT)
 		if err != nil {
 			return err
 		}
@@ -199,9 +206,15 @@ func genAsset(root string, L genLayout) error {
 			}
 			at += uint64(n * frame)
 		}
+		mpdT, mpdDur := audioT, nominalAudioDur(L, frame)
+		if L.audioT != 0 && L.videoSegs[0]*audioT%L.videoT != 0 {
+			// the nominal segment duration is no whole number of audio ticks: the template states it in the video timescale
+			// (a $Number$ template's timescale need not be the media timescale)
+			mpdT, mpdDur = L.videoT, L.videoSegs[0]
+		}
 		fmt.Fprintf(&asets, `<AdaptationSet contentType="audio" mimeType="audio/mp4" lang="en" segmentAlignment="true" startWithSAP="1">
-<SegmentTemplate startNumber="1" timescale="48000" duration="%d" initialization="$RepresentationID$/init.mp4" media="$RepresentationID$/$Number$.m4s"/>
-<Representation id="A1" codecs="%s" bandwidth="48000" audioSamplingRate="48000"/></AdaptationSet>`, nominalAudioDur(L, frame), codec)
+<SegmentTemplate startNumber="1" timescale="%d" duration="%d" initialization="$RepresentationID$/init.mp4" media="$RepresentationID$/$Number$.m4s"/>
+<Representation id="A1" codecs="%s" bandwidth="48000" audioSamplingRate="%d"/></AdaptationSet>`, mpdT, mpdDur, codec, audioT)
 	}
 	if L.stpp {
 		tInit, tTrack, err := retimedInit("testpic_2s/imsc1_txt_sv/init.mp4", 1000)
@@ -264,8 +277,12 @@ func buildVodRoot() (string, error) {
 // the audio timescale when that is a whole number (as in the bundled assets, where audio and video carry the same
 // nominal duration), else the first audio segment's own duration.
 func nominalAudioDur(L genLayout, frame int) int {
-	if L.videoSegs[0]*48000%L.videoT == 0 {
-		return L.videoSegs[0] * 48000 / L.videoT
+	audioT := L.audioT
+	if audioT == 0 {
+		audioT = 48000
+	}
+	if L.videoSegs[0]*audioT%L.videoT == 0 {
+		return L.videoSegs[0] * audioT / L.videoT
 	}
 	return L.audioSegs[0] * frame
 }
